@@ -1,6 +1,6 @@
 (* C09: the minimiser iterator emits exactly the maximal runs of same-minimiser windows. *)
 From Coq Require Import NArith List.
-From KT Require Import Gen.Generated Gen.Alphabet Gen.FactsBase Gen.FactTableMinimiser Model.Kmer Proof.MinAbs Proof.MinSpec Proof.MinConc Proof.MinExt Proof.NoSentinel.
+From KT Require Import Gen.Generated Gen.Alphabet Gen.FactsBase Gen.FactTableMinimiser Model.Kmer Proof.MinAbs Proof.MinSpec Proof.MinConc Proof.MinExt Proof.NoSentinel Proof.Pull.
 Import ListNotations.
 Open Scope N_scope.
 
@@ -33,6 +33,19 @@ Proof.
   intros w m s H1 H2. rewrite (mg_run_grp nt4m w m H1 H2 s). exact (spec_runs_below_sentinel nt4m w m H1 H2 s).
 Qed.
 
+(* the Iterator interface (Proof/Pull.v): calling next() until it returns None yields exactly the runs above - the
+   run still open at the end of the sequence is emitted by the call that reaches the end, once - and an exhausted
+   iterator keeps returning None *)
+Theorem C09_items_drawn_with_next :
+  forall w m s, (1 <= m <= w)%nat -> (m <= 31)%nat ->
+  mg_collect nt4m w m (length s + 2) (mg_init, 0%nat, s) = grp_go nt4m w m None [] s.
+Proof. intros w m s H1 H2. rewrite mg_collect_run. exact (mg_run_grp nt4m w m H1 H2 s). Qed.
+
+Theorem C09_exhausted_iterator_stays_exhausted :
+  forall w m st pos rest o', mg_next nt4m w m st pos rest = (None, o') ->
+  let '(st', pos', rest') := o' in mg_next nt4m w m st' pos' rest' = (None, o').
+Proof. intros w m. apply next_fused. apply mg_closed. Qed.
+
 Example C09_example :
   mg_run nt4m 8 5 [65;84;71;67;71;65;84;65;84;67;71;78;84;65;71;71;67;71;84;67;71;65;84;71;71;65]
   = [(217, 0%nat, 8%nat); (205, 1%nat, 11%nat); (101, 12%nat, 22%nat); (216, 15%nat, 26%nat)].
@@ -42,3 +55,5 @@ Print Assumptions C09_runs_exact.
 Print Assumptions C09_alphabet.
 Print Assumptions C09_runs_exact_letters.
 Print Assumptions C09_no_placeholder_is_ever_emitted.
+Print Assumptions C09_items_drawn_with_next.
+Print Assumptions C09_exhausted_iterator_stays_exhausted.
